@@ -16,3 +16,17 @@ Proof. split; vm_compute; reflexivity. Qed.
 (* sets that are not recursive never store a context for themselves *)
 Lemma nonrec_owner_no_store t r sid si : tget t sid = Some si -> s_rec si = false -> fst (scopes_for_owner t r sid) = r.
 Proof. intros H1 H2. unfold scopes_for_owner. rewrite H1, H2. reflexivity. Qed.
+
+(* the registry is write-only for the lookup itself: the answer of _resolve_identifier depends on the chain it is
+   given, never on what is stored (so history can influence an answer only through the chain an access builds) *)
+Lemma resolve_reg_irrelevant : forall fuel t r r' name scopes vis,
+  snd (resolve fuel t r name scopes vis) = snd (resolve fuel t r' name scopes vis).
+Proof.
+  induction fuel as [|f IH]; intros t r r' name scopes vis; [reflexivity|]. cbn [resolve].
+  match goal with |- snd (?scan1 ?P) = snd (?scan2 ?P) => generalize P end.
+  intros prefixes. induction prefixes as [|[sc ch] more IHp]; [reflexivity|].
+  destruct (find_name (scope_items t sc) name 0) as [[pos bv]|]; [|exact IHp].
+  destruct (bid_mem sc pos vis); [reflexivity|].
+  destruct bv as [i n|i n2|i]; [reflexivity|apply IH|reflexivity].
+Qed.
+Print Assumptions resolve_reg_irrelevant.
